@@ -193,9 +193,14 @@ def Gc.collect (g : Gc) (stack : List Slot) (gp : Nat) : Option Gc :=
     | none => none
     | some m' => some ({ g with mem := m' }).sweep
 
-/-- the 80 % rule of `gc_run` (`wb_top < mem_size * 0.8` in double) -/
-def Gc.wantsCollect (g : Gc) : Bool :=
-  !(Float.ofNat g.cur.length < Float.ofNat g.mem.size * 0.8)
+/-- the 80 % rule of `gc_run`: the C test is `wb_top < mem_size * 0.8` evaluated in
+double; for the sizes in use it coincides with the integer test `5·wb_top < 4·mem_size`
+(compared against the real `gc_run` at and around every threshold by the correspondence) -/
+def Gc.wantsCollect (g : Gc) : Bool := !(5 * g.cur.length < 4 * g.mem.size)
+
+/-- `gc_run` with its own trigger -/
+def Gc.run (g : Gc) (stack : List Slot) (gp : Nat) : Option Gc :=
+  if g.wantsCollect then g.collect stack gp else some g
 
 /-! typed stores (gc_set_*): `none` when the C `assert` on the object tag would fail -/
 
@@ -260,6 +265,7 @@ inductive Op where
   | setStrRef (a v : Nat)
   | collect (stack : List Slot) (gp : Nat)
   | omfalos (stack : List Slot)
+  | run (stack : List Slot) (gp : Nat)
   deriving Repr, DecidableEq
 
 def isStr : Option Obj → Bool | some (.str _) => true | _ => false
@@ -299,6 +305,7 @@ def Gc.wellTyped (g : Gc) : Op → Bool
   | .setStrRef _ v => g.mem.okStr v
   | .collect st gp => st.all (slotOk g.mem) && gp < g.mem.size
   | .omfalos st => st.all (slotOk g.mem)
+  | .run st gp => st.all (slotOk g.mem) && gp < g.mem.size
 
 /-- result of one operation: `none` = the C code is outside defined behaviour
 (failed tag assertion, NULL/foreign read in the collector, recursion without end) -/
@@ -315,6 +322,7 @@ def Gc.apply (g : Gc) : Op → Option Gc
   | .setStrRef a v => g.setStringRef a v
   | .collect st gp => g.collect st gp
   | .omfalos st => g.runOmfalos st
+  | .run st gp => g.run st gp
 
 /-- run a history; operations that are not well-typed, or whose typed store would trip
 the accessor's tag assertion, are not part of any history the VM produces: skipped -/
